@@ -291,8 +291,10 @@ func (pk *PrivateKey) parsePrivateKey(data []byte) (err error) {
 		return pk.parseECDSAPrivateKey(data)
 	case PubKeyAlgoEdDSA:
 		return pk.parseEdDSAPrivateKey(data)
+	case PubKeyAlgoECDH:
+		return pk.parseECDHPrivateKey(data)
 	}
-	panic("impossible")
+	return errors.UnsupportedError("private key type: " + strconv.Itoa(int(pk.PublicKey.PubKeyAlgo)))
 }
 
 func (pk *PrivateKey) parseRSAPrivateKey(data []byte) (err error) {
@@ -379,6 +381,31 @@ func (pk *PrivateKey) parseECDSAPrivateKey(data []byte) (err error) {
 	pk.PrivateKey = &ecdsa.PrivateKey{
 		PublicKey: *ecdsaPub,
 		D:         new(big.Int).SetBytes(d),
+	}
+	pk.Encrypted = false
+	pk.encryptedData = nil
+
+	return nil
+}
+
+// parseECDHPrivateKey reads the secret scalar of an ECDH key (RFC 6637, section 9).
+func (pk *PrivateKey) parseECDHPrivateKey(data []byte) (err error) {
+	buf := bytes.NewBuffer(data)
+	d, _, err := readMPI(buf)
+	if err != nil {
+		return
+	}
+
+	switch pub := pk.PublicKey.PublicKey.(type) {
+	case *ecdsa.PublicKey:
+		// NIST curves: the public key is stored in an ecdsa.PublicKey for convenience.
+		pk.PrivateKey = &ecdsa.PrivateKey{
+			PublicKey: *pub,
+			D:         new(big.Int).SetBytes(d),
+		}
+	default:
+		// Curve25519: the scalar as stored
+		pk.PrivateKey = d
 	}
 	pk.Encrypted = false
 	pk.encryptedData = nil
